@@ -1,5 +1,6 @@
 CONSTANTS
 Caps = {1, 2}
+Wins = {"normal", "tiny"}
 MaxEvents = 3
 MaxReq = 3
 MaxFaults = 2
